@@ -19,6 +19,10 @@ pub struct Case {
     /// the same authentication object (Ntlm) first completes an honest session; in the judged second session the
     /// server answers the final round with the reply it gave in the first one (a recorded reply replayed)
     pub replay_after_reuse: bool,
+    /// with replay_after_reuse: how many sessions in a row (0 = two on one object), one object or a fresh one each;
+    /// (1, order) = the look-alike certificate case (see clone_relay); (3, _) = same account, other password
+    #[serde(default)]
+    pub replay_sessions: (usize, bool),
     /// the server does not know the password (ServerParams::passwordless): whatever it sends in the final round must be
     /// refused, the honestly computed key + 1 included
     pub passwordless: bool,
@@ -135,9 +139,76 @@ fn class_of(r: &FinalReply, version_byte_bits: Option<(usize, usize)>) -> u8 {
     }
 }
 
-/// two sessions driven through x224::Client::connect with ONE Ntlm object; the second server replays the first
-/// server's final reply
-fn replay_after_reuse(cfg: &ConnCfg, cert: Cert) -> Outcome {
+/// two connections in a row on one thread: an honest one to `first`, then one to `second` — a certificate with the
+/// same issuer and serial number as `first` but another key — whose server relays the proof of the holder of `first`'s
+/// key (what a man in the middle presenting a look-alike certificate obtains from the real server). The client saw
+/// `second`'s key on this connection: the proof is for another key and must be refused. Then an honest connection to
+/// `second` must succeed.
+fn clone_relay(cfg: &ConnCfg, first: Cert, second: Cert) -> Outcome {
+    let key_first = match crate::tls::acceptor(first) {
+        Ok(a) => a.1,
+        Err(e) => return Outcome::fail("setup", "machinery", e),
+    };
+    let t1 = match tls_connect(cfg, ServerParams { selected: 2, ..Default::default() }, vec![], first) {
+        Ok(t) => t,
+        Err(e) => return Outcome::fail("setup", "machinery", e),
+    };
+    if t1.client.is_none() {
+        return Outcome::fail("mismatch", "honest-server-refused", format!("first connection ({:?}): {:?}", first, t1.error));
+    }
+    drop(t1);
+    let t2 = match tls_connect(cfg, ServerParams { selected: 2, final_reply: FinalReply::OtherCertificate(key_first), ..Default::default() }, vec![], second) {
+        Ok(t) => t,
+        Err(e) => return Outcome::fail("setup", "machinery", e),
+    };
+    {
+        let pr = t2.peer.borrow();
+        if !pr.srv.final_reply_sent {
+            if pr.srv.errors.iter().any(|e| e.contains("pubKeyAuth is not the SubjectPublicKey")) {
+                // the client's own proof names another key than the one of the certificate it is looking at: that is what a
+                // relay needs (the holder of the other key will accept it and answer with a proof the client accepts)
+                return Outcome::fail("mismatch", "client-binds-the-session-to-another-certificate-than-the-one-presented", format!("after an honest connection to {:?}, connected to {:?} (same issuer and serial number, another key): {:?}", first, second, pr.srv.errors));
+            }
+            return Outcome::fail("setup", "final-round-not-reached", format!("second connection: server {:?}, client {:?}", pr.srv.errors, t2.error));
+        }
+        let released = pr.srv.creds.is_some() || pr.srv.log.iter().any(|m| m.name == "cssp_credentials");
+        if released || pr.srv.bytes_after_final_reply > 0 || t2.client.is_some() {
+            return Outcome::fail("mismatch", "credentials-released-to-a-look-alike-certificate", format!("after an honest connection to {:?}, a server presenting {:?} (same issuer and serial number, another key) relayed the proof for {:?}'s key and was accepted: released={} bytes after the reply={} connect ok={}", first, second, first, released, pr.srv.bytes_after_final_reply, t2.client.is_some()));
+        }
+    }
+    drop(t2);
+    let t3 = match tls_connect(cfg, ServerParams { selected: 2, ..Default::default() }, vec![], second) {
+        Ok(t) => t,
+        Err(e) => return Outcome::fail("setup", "machinery", e),
+    };
+    if t3.client.is_none() {
+        return Outcome::fail("mismatch", "honest-server-refused", format!("honest connection to {:?} after connections to {:?} on the same thread: {:?}", second, first, t3.error));
+    }
+    Outcome::pass("look-alike-certificate-relay-rejected", true)
+}
+
+/// three honest connections in a row on one thread for the same user and domain: with the configured password, with another
+/// one, with the first again (through the NT hash too when the configuration says so): each proof is computed from the
+/// password of its own connection, whatever the thread computed before
+fn same_account_other_password(cfg: &ConnCfg, cert: Cert) -> Outcome {
+    let mut other = cfg.clone();
+    other.client.password = format!("{}-another", cfg.client.password);
+    for (k, c) in [cfg, &other, cfg].iter().enumerate() {
+        let t = match tls_connect(c, ServerParams { selected: 2, ..Default::default() }, vec![], cert) {
+            Ok(t) => t,
+            Err(e) => return Outcome::fail("setup", "machinery", e),
+        };
+        if t.client.is_none() {
+            return Outcome::fail("mismatch", "honest-server-refused", format!("connection {} of 3 for the same user and domain (password {}): client {:?}, server {:?}", k + 1, if k == 1 { "changed" } else { "as configured" }, t.error, t.peer.borrow().srv.errors));
+        }
+    }
+    Outcome::pass("same-account-other-password-accepted", true)
+}
+
+/// `sessions` sessions in a row on one thread, driven through x224::Client::connect with the library's real random
+/// generator; the first is honest, every later server replays the first server's final reply (it proves nothing: the
+/// nonces of the new session differ). `same_object`: ONE Ntlm object serves them all, otherwise a fresh one each time.
+fn replay_after_reuse(cfg: &ConnCfg, cert: Cert, sessions: usize, same_object: bool) -> Outcome {
     use crate::memlink::MemLink;
     use rdp::core::{tpkt, x224};
     use rdp::model::link::{Link, Stream};
@@ -149,11 +220,14 @@ fn replay_after_reuse(cfg: &ConnCfg, cert: Cert) -> Outcome {
         p.acct_domain = cfg.client.domain.clone();
         p.acct_password = cfg.client.password.clone();
     };
-    let mut ntlm = if cfg.use_hash {
-        Ntlm::from_hash(cfg.client.domain.clone(), cfg.client.user.clone(), &vref::ntlm::nt_hash(&cfg.client.password))
-    } else {
-        Ntlm::new(cfg.client.domain.clone(), cfg.client.user.clone(), cfg.client.password.clone())
+    let fresh = || {
+        if cfg.use_hash {
+            Ntlm::from_hash(cfg.client.domain.clone(), cfg.client.user.clone(), &vref::ntlm::nt_hash(&cfg.client.password))
+        } else {
+            Ntlm::new(cfg.client.domain.clone(), cfg.client.user.clone(), cfg.client.password.clone())
+        }
     };
+    let mut ntlm = fresh();
     let restricted = cfg.restricted_admin;
     // session 1: honest
     let mut p1 = ServerParams { selected: 2, ..Default::default() };
@@ -170,24 +244,29 @@ fn replay_after_reuse(cfg: &ConnCfg, cert: Cert) -> Outcome {
         Some(b) => b,
         None => return Outcome::fail("setup", "final-round-not-reached", "first session".to_string()),
     };
-    // session 2: same object, the reply of session 1 replayed
-    let mut p2 = ServerParams { selected: 2, final_reply: FinalReply::Raw(recorded), ..Default::default() };
-    account(&mut p2);
-    let peer2 = match crate::tls::TlsPeer::new(p2, vec![], cert) {
-        Ok(p) => Rc::new(RefCell::new(p)),
-        Err(e) => return Outcome::fail("setup", "machinery", e),
-    };
-    let t2 = tpkt::Client::new(Link::new(Stream::Raw(MemLink::with_peer(peer2.clone()))));
-    let r2 = x224::Client::connect(t2, 3, false, Some(&mut ntlm), restricted, cfg.blank_creds);
-    let pr = peer2.borrow();
-    if !pr.srv.final_reply_sent {
-        return Outcome::fail("setup", "final-round-not-reached", format!("second session: {:?}", pr.srv.errors));
+    // later sessions: the reply of session 1 replayed
+    for n in 2..=sessions {
+        if !same_object {
+            ntlm = fresh();
+        }
+        let mut p2 = ServerParams { selected: 2, final_reply: FinalReply::Raw(recorded.clone()), ..Default::default() };
+        account(&mut p2);
+        let peer2 = match crate::tls::TlsPeer::new(p2, vec![], cert) {
+            Ok(p) => Rc::new(RefCell::new(p)),
+            Err(e) => return Outcome::fail("setup", "machinery", e),
+        };
+        let t2 = tpkt::Client::new(Link::new(Stream::Raw(MemLink::with_peer(peer2.clone()))));
+        let r2 = x224::Client::connect(t2, 3, false, Some(&mut ntlm), restricted, cfg.blank_creds);
+        let pr = peer2.borrow();
+        if !pr.srv.final_reply_sent {
+            return Outcome::fail("mismatch", "later-session-of-the-thread-does-not-reach-the-final-round", format!("session {} of the thread ({}): server {:?}, client {:?}", n, if same_object { "same authentication object" } else { "fresh authentication object" }, pr.srv.errors, r2.err()));
+        }
+        let released = pr.srv.creds.is_some() || pr.srv.log.iter().any(|m| m.name == "cssp_credentials");
+        if released || pr.srv.bytes_after_final_reply > 0 || r2.is_ok() {
+            return Outcome::fail("mismatch", "credentials-released-after-a-replayed-reply", format!("session {} of the thread ({}): the reply recorded in session 1 was accepted: released={} bytes after the reply={} connect ok={}", n, if same_object { "the authentication object had completed the earlier sessions" } else { "fresh authentication object" }, released, pr.srv.bytes_after_final_reply, r2.is_ok()));
+        }
     }
-    let released = pr.srv.creds.is_some() || pr.srv.log.iter().any(|m| m.name == "cssp_credentials");
-    if released || pr.srv.bytes_after_final_reply > 0 || r2.is_ok() {
-        return Outcome::fail("mismatch", "credentials-released-after-a-replayed-reply", format!("the authentication object had completed an earlier session; the reply recorded there was accepted in a new session: released={} bytes after the reply={} connect ok={}", released, pr.srv.bytes_after_final_reply, r2.is_ok()));
-    }
-    Outcome::pass("replayed-reply-rejected", true)
+    Outcome::pass(if sessions > 2 { "replayed-reply-rejected-in-every-later-session" } else { "replayed-reply-rejected" }, true)
 }
 
 impl Prop for C01 {
@@ -216,14 +295,14 @@ impl Prop for C01 {
                 let len = honest.len();
                 self.honest_len.insert((ci, format!("{:?}", cert)), len);
                 let full = tier == Tier::Thorough || (ci == 0 && cert == Cert::A) || (ci == 4 && cert == Cert::B);
-                cs.push(Case { cfg_id: ci, cert, reply: FinalReply::Honest, challenge_without: 0, replay_after_reuse: false, passwordless: false });
+                cs.push(Case { cfg_id: ci, cert, reply: FinalReply::Honest, challenge_without: 0, replay_after_reuse: false, replay_sessions: (0, true), passwordless: false });
                 let others: Vec<Vec<u8>> = match cert {
                     Cert::A => vec![key_b.clone(), key_m.clone()],
                     Cert::B => vec![key_a.clone(), key_m.clone()],
                     _ => vec![key_a.clone(), key_b.clone()],
                 };
                 for r in structured(&others) {
-                    cs.push(Case { cfg_id: ci, cert, reply: r, challenge_without: 0, replay_after_reuse: false, passwordless: false });
+                    cs.push(Case { cfg_id: ci, cert, reply: r, challenge_without: 0, replay_after_reuse: false, replay_sessions: (0, true), passwordless: false });
                 }
                 // every proper prefix of the value, correctly sealed (the value must be compared as a whole)
                 let klen = match cert {
@@ -233,19 +312,19 @@ impl Prop for C01 {
                     _ => key_a.len(),
                 };
                 for n in (0..klen).step_by(if full { 1 } else { 29 }) {
-                    cs.push(Case { cfg_id: ci, cert, reply: FinalReply::SealedPrefix(n), challenge_without: 0, replay_after_reuse: false, passwordless: false });
+                    cs.push(Case { cfg_id: ci, cert, reply: FinalReply::SealedPrefix(n), challenge_without: 0, replay_after_reuse: false, replay_sessions: (0, true), passwordless: false });
                 }
                 let step = if full { 1 } else { 13 };
                 for bit in (0..len * 8).step_by(step) {
-                    cs.push(Case { cfg_id: ci, cert, reply: FinalReply::FlipBit(bit), challenge_without: 0, replay_after_reuse: false, passwordless: false });
+                    cs.push(Case { cfg_id: ci, cert, reply: FinalReply::FlipBit(bit), challenge_without: 0, replay_after_reuse: false, replay_sessions: (0, true), passwordless: false });
                 }
                 for n in (0..len).step_by(if full { 1 } else { 7 }) {
-                    cs.push(Case { cfg_id: ci, cert, reply: FinalReply::Truncate(n), challenge_without: 0, replay_after_reuse: false, passwordless: false });
+                    cs.push(Case { cfg_id: ci, cert, reply: FinalReply::Truncate(n), challenge_without: 0, replay_after_reuse: false, replay_sessions: (0, true), passwordless: false });
                 }
                 if full {
                     for d in -256i64..=256 {
                         if d != 1 {
-                            cs.push(Case { cfg_id: ci, cert, reply: FinalReply::Offset(d), challenge_without: 0, replay_after_reuse: false, passwordless: false });
+                            cs.push(Case { cfg_id: ci, cert, reply: FinalReply::Offset(d), challenge_without: 0, replay_after_reuse: false, replay_sessions: (0, true), passwordless: false });
                         }
                     }
                     let keylen = if cert == Cert::B { key_b.len() } else { key_a.len() };
@@ -254,7 +333,7 @@ impl Prop for C01 {
                             if j == 0 && !neg {
                                 continue; // + 2^0 is the honest value
                             }
-                            cs.push(Case { cfg_id: ci, cert, reply: FinalReply::Pow2(j, neg), challenge_without: 0, replay_after_reuse: false, passwordless: false });
+                            cs.push(Case { cfg_id: ci, cert, reply: FinalReply::Pow2(j, neg), challenge_without: 0, replay_after_reuse: false, replay_sessions: (0, true), passwordless: false });
                         }
                     }
                 }
@@ -263,17 +342,17 @@ impl Prop for C01 {
         // carry propagation of key + 1: a raw 32-byte key starting with 0xFF (Ed25519), every offset -300..300
         let key_ff = acceptor(Cert::Ed25519FF)?.1;
         for ci in [0usize, 1] {
-            cs.push(Case { cfg_id: ci, cert: Cert::Ed25519FF, reply: FinalReply::Honest, challenge_without: 0, replay_after_reuse: false, passwordless: false });
+            cs.push(Case { cfg_id: ci, cert: Cert::Ed25519FF, reply: FinalReply::Honest, challenge_without: 0, replay_after_reuse: false, replay_sessions: (0, true), passwordless: false });
             for r in structured(&[key_a.clone(), key_b.clone()]) {
                 // a "prefix" as long as the (32-byte) key is the honest value itself
                 if matches!(r, FinalReply::SealedPrefix(n) if n >= key_ff.len()) {
                     continue;
                 }
-                cs.push(Case { cfg_id: ci, cert: Cert::Ed25519FF, reply: r, challenge_without: 0, replay_after_reuse: false, passwordless: false });
+                cs.push(Case { cfg_id: ci, cert: Cert::Ed25519FF, reply: r, challenge_without: 0, replay_after_reuse: false, replay_sessions: (0, true), passwordless: false });
             }
             for d in -300i64..=300 {
                 if d != 1 {
-                    cs.push(Case { cfg_id: ci, cert: Cert::Ed25519FF, reply: FinalReply::Offset(d), challenge_without: 0, replay_after_reuse: false, passwordless: false });
+                    cs.push(Case { cfg_id: ci, cert: Cert::Ed25519FF, reply: FinalReply::Offset(d), challenge_without: 0, replay_after_reuse: false, replay_sessions: (0, true), passwordless: false });
                 }
             }
             for j in 0..key_ff.len() * 8 {
@@ -281,7 +360,7 @@ impl Prop for C01 {
                     if j == 0 && !neg {
                         continue;
                     }
-                    cs.push(Case { cfg_id: ci, cert: Cert::Ed25519FF, reply: FinalReply::Pow2(j, neg) , challenge_without: 0, replay_after_reuse: false, passwordless: false });
+                    cs.push(Case { cfg_id: ci, cert: Cert::Ed25519FF, reply: FinalReply::Pow2(j, neg) , challenge_without: 0, replay_after_reuse: false, replay_sessions: (0, true), passwordless: false });
                 }
             }
         }
@@ -289,14 +368,14 @@ impl Prop for C01 {
         for without in [vref::ntlm::F_SIGN, vref::ntlm::F_ALWAYS_SIGN, vref::ntlm::F_SEAL, vref::ntlm::F_SIGN | vref::ntlm::F_ALWAYS_SIGN, vref::ntlm::F_56, vref::ntlm::F_TARGET_TYPE_SERVER] {
             for ci in [0usize, 1, 4] {
                 let cert = Cert::A;
-                cs.push(Case { cfg_id: ci, cert, reply: FinalReply::Honest, challenge_without: without, replay_after_reuse: false, passwordless: false });
+                cs.push(Case { cfg_id: ci, cert, reply: FinalReply::Honest, challenge_without: without, replay_after_reuse: false, replay_sessions: (0, true), passwordless: false });
                 for r in structured(&[key_b.clone(), key_m.clone()]) {
-                    cs.push(Case { cfg_id: ci, cert, reply: r, challenge_without: without, replay_after_reuse: false, passwordless: false });
+                    cs.push(Case { cfg_id: ci, cert, reply: r, challenge_without: without, replay_after_reuse: false, replay_sessions: (0, true), passwordless: false });
                 }
                 // every bit of the 16-byte signature that precedes the sealed value, and a few beyond
                 let len = *self.honest_len.get(&(ci, format!("{:?}", cert))).unwrap_or(&0);
                 for bit in (0..len * 8).step_by(if tier == Tier::Thorough { 1 } else { 5 }) {
-                    cs.push(Case { cfg_id: ci, cert, reply: FinalReply::FlipBit(bit), challenge_without: without, replay_after_reuse: false, passwordless: false });
+                    cs.push(Case { cfg_id: ci, cert, reply: FinalReply::FlipBit(bit), challenge_without: without, replay_after_reuse: false, replay_sessions: (0, true), passwordless: false });
                 }
             }
         }
@@ -306,7 +385,7 @@ impl Prop for C01 {
             for ci in [0usize, 1, 4] {
                 for cert in [Cert::A, Cert::B] {
                     for reply in [FinalReply::Honest, FinalReply::Version(6), FinalReply::Offset(0), FinalReply::ClientDirectionKeys] {
-                        cs.push(Case { cfg_id: ci, cert, reply, challenge_without: without, replay_after_reuse: false, passwordless: true });
+                        cs.push(Case { cfg_id: ci, cert, reply, challenge_without: without, replay_after_reuse: false, replay_sessions: (0, true), passwordless: true });
                     }
                 }
             }
@@ -314,7 +393,24 @@ impl Prop for C01 {
         // one authentication object used for two sessions: nothing of the first may make a replayed reply acceptable
         for ci in [0usize, 1, 2, 3] {
             for cert in [Cert::A, Cert::B] {
-                cs.push(Case { cfg_id: ci, cert, reply: FinalReply::Honest, challenge_without: 0, replay_after_reuse: true, passwordless: false });
+                cs.push(Case { cfg_id: ci, cert, reply: FinalReply::Honest, challenge_without: 0, replay_after_reuse: true, replay_sessions: (0, true), passwordless: false });
+            }
+        }
+        // a certificate cloning issuer and serial number of one the thread connected to before, with another key
+        for ci in [0usize, 1, 2, 3] {
+            for a_first in [true, false] {
+                cs.push(Case { cfg_id: ci, cert: Cert::AClone, reply: FinalReply::Honest, challenge_without: 0, replay_after_reuse: true, replay_sessions: (1, a_first), passwordless: false });
+            }
+        }
+        // the same user and domain with another password later on the same thread (honest servers: all accepted)
+        for ci in 0..configs().len() {
+            cs.push(Case { cfg_id: ci, cert: Cert::A, reply: FinalReply::Honest, challenge_without: 0, replay_after_reuse: true, replay_sessions: (3, true), passwordless: false });
+        }
+        // 70 sessions in a row on one thread with the real random generator (one object / a fresh one each time): the
+        // reply recorded in the first never becomes acceptable, whatever is pooled, cached or counted per thread
+        for (ci, cert) in [(0usize, Cert::A), (3, Cert::B)] {
+            for same in [true, false] {
+                cs.push(Case { cfg_id: ci, cert, reply: FinalReply::Honest, challenge_without: 0, replay_after_reuse: true, replay_sessions: (70, same), passwordless: false });
             }
         }
         self.cases = cs;
@@ -341,7 +437,7 @@ impl Prop for C01 {
         json!({"idx": idx, "config": configs()[c.cfg_id], "certificate": c.cert, "final_round_reply": c.reply, "server_knows_the_password": !c.passwordless, "challenge_flags_left_out": format!("{:#x}", c.challenge_without)})
     }
     fn rule(&self) -> String {
-        "cases = (connector configuration, server certificate, reply of the server in the final CredSSP round). Configurations: 3 credential sets x password|hash x {plain, restricted admin, blank credentials}; certificates RSA-2048, EC P-256, EC P-521 (every DER length of the round then lies in 128..255) (+ an untrusted RSA key for the relay case). Replies: honest; every single-bit flip of the honest TSRequest; key+d for every d in [-256,256] except 1 and key +- 2^j for every j up to 248, correctly sealed; sealed with client-to-server keys / another session key / wrong signing key / wrong sealing key / advanced cipher stream; honest reply for another certificate's key (relay); reflection of the client's token; every truncation; extensions; the honest value re-encoded as BER-but-not-DER (long-form lengths everywhere / only on the version field, exactly one redundant leading zero octet on every length / on the outer SEQUENCE / on the OCTET STRING, indefinite-length outer SEQUENCE / [3] wrapper, constructed OCTET STRING) which CredSSP's DER rules make a malformed encoding and which must be refused; extra field, missing/empty pubKeyAuth, wrong context tag, versions 0/3/6; EOF. Full alphabet for two configurations in quick (every 13th bit / 7th truncation elsewhere), for all in thorough. Also: an Ed25519 certificate whose raw key starts with 0xFF (carry of key+1) with every offset -300..300 and +-2^j; the CHALLENGE of the earlier round leaving out SIGN / ALWAYS_SIGN / SEAL / 56 / TARGET_TYPE flags x structured replies x bit flips. Also: a server that does not know the password and takes the EncryptedRandomSessionKey field of the AUTHENTICATE message for the session key, under 8 CHALLENGE flag sets (with and without KEY_EXCH, SEAL, 128, 56, extended session security) x 4 replies sealed under those keys: all must be refused; wrong values sealed correctly in TSRequests announcing CredSSP versions 2, 3, 5, 6, 2^31-1. Also: one authentication object (Ntlm) used for two sessions through x224::Client::connect, the second server replaying the first server's final reply (4 configurations x 2 certificates). Oracle: honest => credentials released and well formed; must-reject => connect returns Err, the server's TLS endpoint receives zero application bytes after its reply, not one raw byte (TLS alert or closure record) is written on the transport after it, and the client does not ask the (still open) transport for more bytes after the reply was delivered; don't-care (same integer, other spelling) => if accepted the value was right. Non-trivial: every reply but the honest one.".into()
+        "cases = (connector configuration, server certificate, reply of the server in the final CredSSP round). Configurations: 3 credential sets x password|hash x {plain, restricted admin, blank credentials}; certificates RSA-2048, EC P-256, EC P-521 (every DER length of the round then lies in 128..255) (+ an untrusted RSA key for the relay case). Replies: honest; every single-bit flip of the honest TSRequest; key+d for every d in [-256,256] except 1 and key +- 2^j for every j up to 248, correctly sealed; sealed with client-to-server keys / another session key / wrong signing key / wrong sealing key / advanced cipher stream; honest reply for another certificate's key (relay); reflection of the client's token; every truncation; extensions; the honest value re-encoded as BER-but-not-DER (long-form lengths everywhere / only on the version field, exactly one redundant leading zero octet on every length / on the outer SEQUENCE / on the OCTET STRING, indefinite-length outer SEQUENCE / [3] wrapper, constructed OCTET STRING) which CredSSP's DER rules make a malformed encoding and which must be refused; extra field, missing/empty pubKeyAuth, wrong context tag, versions 0/3/6; EOF. Full alphabet for two configurations in quick (every 13th bit / 7th truncation elsewhere), for all in thorough. Also: an Ed25519 certificate whose raw key starts with 0xFF (carry of key+1) with every offset -300..300 and +-2^j; the CHALLENGE of the earlier round leaving out SIGN / ALWAYS_SIGN / SEAL / 56 / TARGET_TYPE flags x structured replies x bit flips. Also: a server that does not know the password and takes the EncryptedRandomSessionKey field of the AUTHENTICATE message for the session key, under 8 CHALLENGE flag sets (with and without KEY_EXCH, SEAL, 128, 56, extended session security) x 4 replies sealed under those keys: all must be refused; wrong values sealed correctly in TSRequests announcing CredSSP versions 2, 3, 5, 6, 2^31-1. Also: one authentication object (Ntlm) used for two sessions through x224::Client::connect, the second server replaying the first server's final reply (4 configurations x 2 certificates); 70 sessions in a row on one thread with the real random generator, on one Ntlm object and on a fresh one each time, every server after the first replaying the first server's reply; an honest connection to certificate A followed on the same thread by a server presenting a certificate with A's issuer and serial number but another key that relays the proof for A's key (and the other way round), then an honest connection to it; three honest connections in a row for the same user and domain with the configured password, another one, and the first again (every configuration). Oracle: honest => credentials released and well formed; must-reject => connect returns Err, the server's TLS endpoint receives zero application bytes after its reply, not one raw byte (TLS alert or closure record) is written on the transport after it, and the client does not ask the (still open) transport for more bytes after the reply was delivered; don't-care (same integer, other spelling) => if accepted the value was right. Non-trivial: every reply but the honest one.".into()
     }
     fn assumptions(&self) -> Vec<String> {
         vec![
@@ -360,7 +456,14 @@ impl Prop for C01 {
         let c = self.cases[idx as usize].clone();
         let cfg = configs()[c.cfg_id].clone();
         if c.replay_after_reuse {
-            return replay_after_reuse(&cfg, c.cert);
+            if c.replay_sessions.0 == 3 {
+                return same_account_other_password(&cfg, c.cert);
+            }
+            if c.replay_sessions.0 == 1 {
+                // look-alike certificate: .1 = A first
+                return if c.replay_sessions.1 { clone_relay(&cfg, Cert::A, Cert::AClone) } else { clone_relay(&cfg, Cert::AClone, Cert::A) };
+            }
+            return replay_after_reuse(&cfg, c.cert, c.replay_sessions.0.max(2), c.replay_sessions.1);
         }
         let mut p = ServerParams { selected: 2, final_reply: c.reply.clone(), passwordless: c.passwordless, ..Default::default() };
         p.ntlm.flags &= !c.challenge_without;
